@@ -22,7 +22,7 @@ func init() {
 		Explain: "Decides, for every registered render function of the module (core and extensions) and every helper that receives the output writer, in the safe configuration: (S) every byte reaching the writer is a constant, an integer, renderer configuration, or has passed util.EscapeHTML/EscapeHTMLByte or html.Writer.Write/RawWrite — with two reviewed, separately checked exceptions (attribute names, code-flagged String nodes); (U) raw node bytes are written only under the Unsafe flag; (C) by a character-level HTML lexer run over the constant writes along every CFG path: inside a double-quoted attribute value only escaped/integer/config data or constants free of '<' and '\"' are written, inside a tag only constants/integers/attribute names, every render function starts and ends in text state; (V) the tag vocabulary is closed, the only comment is the placeholder, no bare '&'; (T) the escape table is exactly \" & < >; (E) the sanitisers examine every byte (their scanning loops step by exactly one) and the text writer emits only through the sanitiser; (N) attribute names produced by the parser are restricted to a safe alphabet (predicates evaluated for all 256 bytes). Does NOT decide proper nesting/closing of elements across different nodes of an arbitrary tree, nor XML well-formedness of character data.",
 		Trusted: []string{"bodies of util.EscapeHTML/EscapeHTMLByte and defaultWriter.RawWrite beyond the shape rules C03-E/T", "bufio.Writer"},
 		Assumes: []string{"renderer configuration (options, hook functions, typographer substitutions) is trusted", "user-supplied renderers/extensions out of scope"},
-		Rules:   []func(*World, *Report){ruleSinkDiscipline, ruleVocabulary, ruleEscapeTable, ruleSanitiserLoops, ruleAttrNameProducers, ruleStringProducers},
+		Rules:   []func(*World, *Report){ruleSinkDiscipline, ruleVocabulary, ruleEscapeTable, ruleSanitiserLoops, ruleResolvingWriter, ruleAttrNameProducers, ruleStringProducers},
 	})
 }
 
@@ -600,7 +600,12 @@ func ruleSanitiserLoops(w *World, r *Report) {
 		lp := loops[0]
 		// index phis: integer phis at the header used as an index into the []byte parameter
 		src := fn.Params[len(fn.Params)-1]
-		var idx *ssa.Phi
+		// the scanning index: either the classic form (header phi i, used as source[i], back edges carry i+1) or the
+		// range form go/ssa produces for `for i, c := range source` (header phi r starting at -1, i = r+1 computed in the
+		// header and used as source[i], back edges carry that same i)
+		var idxPhi *ssa.Phi
+		var idx ssa.Value
+		rangeForm := false
 		for _, ins := range lp.Header.Instrs {
 			ph, ok := ins.(*ssa.Phi)
 			if !ok {
@@ -608,7 +613,16 @@ func ruleSanitiserLoops(w *World, r *Report) {
 			}
 			for _, ref := range referrersOf(ph) {
 				if ia, ok := ref.(*ssa.IndexAddr); ok && ia.X == ssa.Value(src) && ia.Index == ssa.Value(ph) {
-					idx = ph
+					idxPhi, idx = ph, ph
+				}
+				if bo, ok := ref.(*ssa.BinOp); ok && bo.Op == token.ADD && bo.X == ssa.Value(ph) && bo.Block() == lp.Header {
+					if c, isC := constInt(bo.Y); isC && c == 1 {
+						for _, r2 := range referrersOf(bo) {
+							if ia, ok := r2.(*ssa.IndexAddr); ok && ia.X == ssa.Value(src) && ia.Index == ssa.Value(bo) {
+								idxPhi, idx, rangeForm = ph, bo, true
+							}
+						}
+					}
 				}
 			}
 		}
@@ -621,9 +635,15 @@ func ruleSanitiserLoops(w *World, r *Report) {
 			if !lp.Body[p] {
 				continue
 			}
-			e := idx.Edges[i]
+			e := idxPhi.Edges[i]
+			if rangeForm {
+				if e != idx {
+					ok = false
+				}
+				continue
+			}
 			b, isB := e.(*ssa.BinOp)
-			if !isB || b.Op != token.ADD || b.X != ssa.Value(idx) {
+			if !isB || b.Op != token.ADD || b.X != ssa.Value(idxPhi) {
 				ok = false
 				continue
 			}
@@ -661,7 +681,7 @@ func ruleSanitiserLoops(w *World, r *Report) {
 					continue
 				}
 				ia, isIA := u.X.(*ssa.IndexAddr)
-				if !isIA || ia.X != ssa.Value(src) || ia.Index != ssa.Value(idx) {
+				if !isIA || ia.X != ssa.Value(src) || ia.Index != idx {
 					continue
 				}
 				domAll := true
@@ -1513,3 +1533,165 @@ func ruleStringProducers(w *World, r *Report) {
 }
 
 var _ = sort.Strings
+
+// ---- C03-W: the resolving writer's own body -----------------------------------------------------------
+
+// ruleResolvingWriter opens the part of the trusted base that decodes references: html.Writer.Write resolves
+// character references and backslash escapes, so what it writes is NOT the bytes it was given. Everything it
+// emits must therefore go through the escaping sink (RawWrite) or through a rune helper that escapes.
+func ruleResolvingWriter(w *World, r *Report) {
+	r.Rule("C03-W", "In every module implementation of html.Writer.Write (the writer that resolves character references and backslash escapes): the output writer is used only by (a) calls of the same type's RawWrite (the escaping sink, C03-E), (b) module rune helpers in which every direct write is either the non-nil result of util.EscapeHTMLByte or a WriteRune reached only on paths where the rune is >= 256 or EscapeHTMLByte(byte(r)) returned nil, and the rune written passes util.ToValidRune. A decoded code point or entity written directly would re-introduce <, >, & or \" that the source spelled as a reference.")
+	hw := w.Iface("renderer/html", "Writer")
+	sa := w.Sinks()
+	escByte := w.PkgFunc("util", "EscapeHTMLByte")
+	valid := w.PkgFunc("util", "ToValidRune")
+	n := 0
+	helperChecked := map[*ssa.Function]bool{}
+	var checkHelper func(fn *ssa.Function) (bool, string, ssa.Instruction)
+	checkHelper = func(fn *ssa.Function) (bool, string, ssa.Instruction) {
+		var wp *ssa.Parameter
+		for _, p := range fn.Params {
+			if sa.isBufWriter(p.Type()) {
+				wp = p
+			}
+		}
+		if wp == nil {
+			return false, "helper has no BufWriter parameter", nil
+		}
+		for _, b := range fn.Blocks {
+			for _, ins := range b.Instrs {
+				c, ok := ins.(ssa.CallInstruction)
+				if !ok {
+					continue
+				}
+				com := c.Common()
+				if !com.IsInvoke() || com.Value != ssa.Value(wp) {
+					for _, a := range com.Args {
+						if a == ssa.Value(wp) {
+							return false, "hands the writer to another function", ins
+						}
+					}
+					continue
+				}
+				switch com.Method.Name() {
+				case "Write":
+					arg := com.Args[0]
+					cc, ok := arg.(*ssa.Call)
+					if !ok || cc.Common().StaticCallee() != escByte || escByte == nil {
+						return false, "writes bytes that are not the result of util.EscapeHTMLByte", ins
+					}
+				case "WriteRune":
+					arg := stripConv(com.Args[0])
+					vc, ok := arg.(*ssa.Call)
+					if !ok || vc.Common().StaticCallee() != valid || valid == nil {
+						return false, "writes a rune that has not passed util.ToValidRune", ins
+					}
+					// every path to this block: rune >= 256 or EscapeHTMLByte(...) == nil
+					okAll := true
+					complete := EnumPaths(fn.Blocks[0], map[string]bool{}, func(x *ssa.BasicBlock) bool { return x == b }, func(p Path) {
+						if p.Blocks[len(p.Blocks)-1] != b {
+							return
+						}
+						okPath := false
+						for _, cf := range pathCondFacts(p) {
+							for _, a := range condAtoms(cf.If.Cond, cf.Truth) {
+								if bo, ok := a.V.(*ssa.BinOp); ok {
+									if cst, ok := constInt(bo.Y); ok && ((bo.Op == token.LSS && cst <= 256 && !a.Truth) || (bo.Op == token.GEQ && cst >= 128 && cst <= 256 && a.Truth)) {
+										okPath = true
+									}
+								}
+								if x, isNil, ok := nilTest(a.V); ok && isNil == a.Truth {
+									if ec, ok := x.(*ssa.Call); ok && ec.Common().StaticCallee() == escByte {
+										okPath = true
+									}
+								}
+							}
+						}
+						if !okPath {
+							okAll = false
+						}
+					})
+					if !complete || !okAll {
+						return false, "WriteRune is reachable for a rune < 256 whose escape-table entry was not consulted (or is non-nil)", ins
+					}
+				default:
+					return false, "uses writer method " + com.Method.Name() + " directly", ins
+				}
+			}
+		}
+		return true, "", nil
+	}
+	for _, t := range w.Implementers(hw) {
+		fn := w.MethodOf(t, "Write")
+		raw := w.MethodOf(t, "RawWrite")
+		if fn == nil || !w.InModule(fn) || fn.Blocks == nil {
+			continue
+		}
+		n++
+		var wp *ssa.Parameter
+		for _, p := range fn.Params {
+			if sa.isBufWriter(p.Type()) {
+				wp = p
+			}
+		}
+		key := w.FnKey(fn)
+		if wp == nil {
+			r.Unknown(key, w.FnPos(fn), "no BufWriter parameter")
+			continue
+		}
+		uses := 0
+		for _, b := range fn.Blocks {
+			for _, ins := range b.Instrs {
+				c, ok := ins.(ssa.CallInstruction)
+				if !ok {
+					continue
+				}
+				com := c.Common()
+				if com.IsInvoke() && com.Value == ssa.Value(wp) {
+					uses++
+					// direct sink in the resolving writer: only constants
+					if len(com.Args) > 0 {
+						if d := sa.Classify(com.Args[0]); d.Kind == DConst {
+							r.OK(fmt.Sprintf("%s: direct constant write #%d", key, uses), w.InstrPos(ins), "constant")
+							continue
+						}
+					}
+					r.Bad(fmt.Sprintf("%s: direct write #%d", key, uses), w.InstrPos(ins), "the resolving writer writes non-constant data directly to the output instead of through RawWrite or an escaping rune helper: a character reference such as &#60; is emitted as a raw '<'")
+					continue
+				}
+				passes := false
+				for _, a := range com.Args {
+					if a == ssa.Value(wp) {
+						passes = true
+					}
+				}
+				if !passes {
+					continue
+				}
+				uses++
+				cal := com.StaticCallee()
+				ukey := fmt.Sprintf("%s: output #%d", key, uses)
+				switch {
+				case cal != nil && cal == raw:
+					r.OK(ukey, w.InstrPos(ins), "through RawWrite (escaping sink)")
+				case cal != nil && w.InModule(cal) && cal.Blocks != nil:
+					ok, why, at := checkHelper(cal)
+					helperChecked[cal] = true
+					if ok {
+						r.OK(ukey, w.InstrPos(ins), "through "+w.FnKey(cal)+", which escapes or writes only runes without an escape-table entry")
+					} else {
+						pos := w.InstrPos(ins)
+						if at != nil {
+							pos = w.InstrPos(at)
+						}
+						r.Bad(ukey, pos, "through "+w.FnKey(cal)+", which "+why)
+					}
+				default:
+					r.Unknown(ukey, w.InstrPos(ins), "the writer is handed to a callee that cannot be resolved")
+				}
+			}
+		}
+		r.Expect("uses of the output writer in "+key, uses, 5)
+	}
+	r.Expect("html.Writer implementations with a resolving Write", n, 1)
+}
